@@ -40,11 +40,15 @@ var Check = &vrt.Check{
 		"the reference codec is canonical: it is validated against the five golden .lzh files (encoder byte-identical, decoder exact) before every run",
 		"byte equality between the library's and the canonical encoder's output is not demanded (only counted)",
 	},
-	SelfTest:      lzref.SelfTest,
-	Plan:          plan,
-	Run:           run,
-	Exhaustive:    func(string) bool { return false },
-	MinNontrivial: 5000,
+	SelfTest:   lzref.SelfTest,
+	Plan:       plan,
+	Run:        run,
+	Exhaustive: func(string) bool { return false },
+	// "is decompressed correctly" needs the codec calls to return: a case (normally < 5 s) that does
+	// not return within its watchdog in three isolated attempts is reported as a violation.
+	HangIsViolation: true,
+	HangKey:         func(c vrt.Case) string { return strings.SplitN(c.ID, "-", 2)[0] },
+	MinNontrivial:   5000,
 	Extra: func(tier string) map[string]any {
 		ab, sab := 14, 9
 		if tier == "thorough" {
@@ -61,27 +65,16 @@ const batch = 1000
 
 func plan(seed int64, tier string) []vrt.Case {
 	var cs []vrt.Case
+	ab, sab, nLong, timeout := 14, 9, 150, 240
+	if tier == "thorough" {
+		ab, sab, nLong, timeout = 18, 12, 5800, 600
+	}
 	add := func(id string, p params) {
 		p.Seed = seed
-		cs = append(cs, vrt.Case{ID: id, Params: vrt.MustParams(p), TimeoutS: 900})
+		cs = append(cs, vrt.Case{ID: id, Params: vrt.MustParams(p), TimeoutS: timeout})
 	}
-	ab, sab, nLong := 14, 9, 150
-	if tier == "thorough" {
-		ab, sab, nLong = 18, 12, 5800
-	}
-	nFixed := len(lzwork.FixedSpecs())
-	total := nFixed + nLong
-	for lo := 0; lo < total; {
-		step := 6
-		if lo >= nFixed {
-			step = 10
-		}
-		hi := min(lo+step, total)
-		if lo < nFixed {
-			hi = min(hi, nFixed)
-		}
-		add(fmt.Sprintf("long-%d-%d", lo, hi), params{Kind: "long", Lo: lo, Hi: hi, N: nLong})
-		lo = hi
+	for _, ch := range lzwork.LongChunks(nLong) {
+		add(fmt.Sprintf("long-%d-%d", ch[0], ch[1]), params{Kind: "long", Lo: ch[0], Hi: ch[1], N: nLong})
 	}
 	add("golden", params{Kind: "golden"})
 	rangeID := func(r lzwork.Range) string {
@@ -102,7 +95,7 @@ func plan(seed int64, tier string) []vrt.Case {
 			}
 		}
 	}
-	return cs
+	return lzwork.LeadWithOneOfEach(cs, func(c vrt.Case) string { return strings.SplitN(c.ID, "-", 2)[0] })
 }
 
 func hashOf(b []byte) uint64 {
@@ -355,7 +348,7 @@ func run(cs vrt.Case) vrt.Obs {
 			}
 			c.both(sp.String(), in, uint64(i), true, parts)
 		}
-		o.Sample = map[string]any{"kind": "long", "inputs": names}
+		o.Sample = map[string]any{"kind": "long", "inputs": names, "directions": "library->reference (header + decode), reference->library (Read + Close)", "header_modes": "b2 and raw"}
 	case "golden":
 		// streams made by the original tool chain (not by the reference encoder): the library must read them
 		var names []string
